@@ -22,6 +22,8 @@ type exprForm struct {
 	Method   bool     // X must be a method call ($xo->M())
 	Dup      bool     // baseline: the operand may be evaluated more than once (not this property's business)
 	Returns  bool
+	OKX      string // harmless operand of the baseline probe when X must yield something else than 1 (array, object)
+	Core     string // reduction: the simpler form this one is built around (tried after "plain")
 }
 
 var exprForms = []exprForm{
@@ -43,6 +45,70 @@ var exprForms = []exprForm{
 	{Name: "interp", Stmt: `$xo = new XO(); $v = "a{%X}b";`, Base: []string{"X"}, Method: true},
 	{Name: "at", Stmt: `$v = @%X;`, Base: []string{"X"}},
 	{Name: "ret", Stmt: `return %X;`, Base: []string{"X"}, FuncOnly: true, Returns: true},
+
+	// ---- round 4: throw-site contexts ------------------------------------------------------------
+	// string interpolation: the interpolation is the whole string / has text on one side / two of them / heredoc,
+	// and such a string in the usual places
+	{Name: "interpOnly", Stmt: `$xo = new XO(); $v = "{%X}";`, Base: []string{"X"}, Method: true},
+	{Name: "interpPre", Stmt: `$xo = new XO(); $v = "a{%X}";`, Base: []string{"X"}, Method: true},
+	{Name: "interpPost", Stmt: `$xo = new XO(); $v = "{%X}b";`, Base: []string{"X"}, Method: true},
+	{Name: "interp2L", Stmt: `$xo = new XO(); $v = "{%X}{$xo->M1()}";`, Base: []string{"X", "x1"}, Method: true},
+	{Name: "interp2R", Stmt: `$xo = new XO(); $v = "{$xo->M0()}{%X}";`, Pre: []string{"x0"}, Base: []string{"x0", "X"}, Method: true},
+	{Name: "interp2T", Stmt: `$xo = new XO(); $v = "{$xo->M0()}-{%X}";`, Pre: []string{"x0"}, Base: []string{"x0", "X"}, Method: true},
+	{Name: "heredocOnly", Stmt: "$xo = new XO(); $v = <<<EOT\n{%X}\nEOT;", Base: []string{"X"}, Method: true},
+	{Name: "heredocText", Stmt: "$xo = new XO(); $v = <<<EOT\na{%X}b\nEOT;", Base: []string{"X"}, Method: true},
+	{Name: "interpArg", Stmt: `$xo = new XO(); $v = take(mark("x0"), "{%X}", mark("x1"));`, Pre: []string{"x0"}, Base: []string{"x0", "X", "x1", "take"}, Method: true, Core: "interpOnly"},
+	{Name: "interpRet", Stmt: `$xo = new XO(); return "{%X}";`, Base: []string{"X"}, Method: true, FuncOnly: true, Returns: true, Core: "interpOnly"},
+	{Name: "interpEcho", Stmt: `$xo = new XO(); echo "{%X}", ";";`, Base: []string{"X", "1"}, Method: true, Core: "interpOnly"},
+	{Name: "interpConcat", Stmt: `$xo = new XO(); $v = "p" . "{%X}";`, Base: []string{"X"}, Method: true, Core: "interpOnly"},
+	{Name: "interpArr", Stmt: `$xo = new XO(); $v = ["{%X}"];`, Base: []string{"X"}, Method: true, Core: "interpOnly"},
+	{Name: "interpCond", Stmt: `$xo = new XO(); if ("{%X}") { mark("x1"); }`, Base: []string{"X", "x1"}, Method: true, Core: "interpOnly"},
+	{Name: "method", Stmt: `$xo = new XO(); $v = %X;`, Base: []string{"X"}, Method: true},
+	// operators and operand positions
+	{Name: "stmt", Stmt: `%X;`, Base: []string{"X"}},
+	{Name: "echo", Stmt: `echo %X, ";";`, Base: []string{"X", "1"}},
+	{Name: "paren", Stmt: `$v = (%X);`, Base: []string{"X"}},
+	{Name: "not", Stmt: `$v = !%X;`, Base: []string{"X"}},
+	{Name: "neg", Stmt: `$v = -%X;`, Base: []string{"X"}},
+	{Name: "cast", Stmt: `$v = (int)%X;`, Base: []string{"X"}},
+	{Name: "plus", Stmt: `$v = mark("x0") + %X;`, Pre: []string{"x0"}, Base: []string{"x0", "X"}},
+	{Name: "cmp", Stmt: `$v = %X == mark("x1");`, Base: []string{"X", "x1"}},
+	{Name: "concatL", Stmt: `$v = %X . mark("x1");`, Base: []string{"X", "x1"}},
+	{Name: "concatAssign", Stmt: `$v = "a"; $v .= %X;`, Base: []string{"X"}},
+	{Name: "ternShort", Stmt: `$v = %X ?: mark("x1");`, Base: []string{"X"}, Dup: true},
+	{Name: "coalAssign", Stmt: `$u = null; $u ??= %X;`, Base: []string{"X"}},
+	{Name: "arrKey", Stmt: `$v = [%X => mark("x1")];`, Base: []string{"X", "x1"}},
+	{Name: "arrVal", Stmt: `$v = [mark("x0") => %X];`, Pre: []string{"x0"}, Base: []string{"x0", "X"}},
+	{Name: "list", Stmt: `[$la, $lb] = [mark("x0"), %X];`, Pre: []string{"x0"}, Base: []string{"x0", "X"}},
+	{Name: "idx", Stmt: `$xa = [1, 2]; $v = $xa[%X];`, Base: []string{"X"}},
+	{Name: "idxAssign", Stmt: `$xa = [1, 2]; $xa[0] += %X;`, Base: []string{"X"}},
+	{Name: "idxBase", Stmt: `$v = %X[0];`, Base: []string{"X"}, OKX: `marka("X")`},
+	{Name: "propBase", Stmt: `$v = %X->p;`, Base: []string{"X"}, OKX: `marko("X")`},
+	{Name: "propAssign", Stmt: `$xo = new XO(); $xo->p = %X;`, Base: []string{"X"}},
+	{Name: "methodArg", Stmt: `$xo = new XO(); $v = $xo->arg3(mark("x0"), %X, mark("x1"));`, Pre: []string{"x0"}, Base: []string{"x0", "X", "x1", "take"}},
+	{Name: "staticArg", Stmt: `$v = XO::sarg3(mark("x0"), %X, mark("x1"));`, Pre: []string{"x0"}, Base: []string{"x0", "X", "x1", "take"}},
+	{Name: "newArg", Stmt: `$v = new XC(mark("x0"), %X, mark("x1"));`, Pre: []string{"x0"}, Base: []string{"x0", "X", "x1", "take"}},
+	// conditions and subjects of control statements
+	{Name: "ifC", Stmt: `if (%X) { mark("x1"); } else { mark("x2"); }`, Base: []string{"X", "x1"}},
+	{Name: "elseifC", Stmt: `if (markf("x0")) { mark("x1"); } elseif (%X) { mark("x2"); }`, Pre: []string{"x0"}, Base: []string{"x0", "X", "x2"}},
+	{Name: "whileC", Stmt: `while (%X) { mark("x1"); break; }`, Base: []string{"X", "x1"}},
+	{Name: "doC", Stmt: `do { mark("x0"); } while (%X && markf("x1"));`, Pre: []string{"x0"}, Base: []string{"x0", "X", "x1"}},
+	{Name: "forInit", Stmt: `for ($fi = %X; $fi < 2; $fi++) { mark("x1"); }`, Base: []string{"X", "x1"}},
+	{Name: "forC", Stmt: `for ($fi = 0; %X; $fi++) { mark("x1"); break; }`, Base: []string{"X", "x1"}},
+	{Name: "forStep", Stmt: `for ($fi = 0; $fi < 1; $fi += %X) { mark("x0"); }`, Pre: []string{"x0"}, Base: []string{"x0", "X"}},
+	{Name: "switchS", Stmt: `switch (%X) { case 1: mark("x1"); break; default: mark("x2"); }`, Base: []string{"X", "x1"}},
+	{Name: "switchCase", Stmt: `switch (1) { case %X: mark("x1"); break; default: mark("x2"); }`, Base: []string{"X", "x1"}},
+	{Name: "matchS", Stmt: `$v = match (%X) { 1 => mark("x1"), default => mark("x2") };`, Base: []string{"X", "x1"}},
+	{Name: "matchArm", Stmt: `$v = match (mark("x0")) { 1 => %X, default => mark("x2") };`, Pre: []string{"x0"}, Base: []string{"x0", "X"}},
+	{Name: "foreachSrc", Stmt: `foreach (%X as $fq) { mark("x1"); }`, Base: []string{"X", "x1"}, OKX: `marka("X")`},
+	{Name: "foreachArr", Stmt: `foreach ([mark("x0"), %X] as $fq) { }`, Pre: []string{"x0"}, Base: []string{"x0", "X"}},
+	// the throw crosses a closure / a callback invoked by a built-in
+	{Name: "closure", Stmt: `$v = (function () { return %X; })();`, Base: []string{"X"}},
+	{Name: "closureVar", Stmt: `$cf = function () { return %X; }; $v = $cf();`, Base: []string{"X"}},
+	{Name: "arrowfn", Stmt: `$v = (fn() => %X)();`, Base: []string{"X"}},
+	{Name: "callUserFunc", Stmt: `$v = call_user_func(function () { return %X; });`, Base: []string{"X"}},
+	{Name: "arrayMap", Stmt: `$v = array_map(function ($q) { return %X; }, [1]);`, Base: []string{"X"}},
+	{Name: "pregCallback", Stmt: `$v = preg_replace_callback("/a/", function ($q) { return %X; }, "a");`, Base: []string{"X"}},
 }
 
 // operand kinds: OK is the harmless baseline operand
@@ -91,18 +157,25 @@ func (r *render) exprStmt(a nAct) string {
 	switch {
 	case f.Method:
 		x = "$xo->" + a.Cls + "()"
+	case a.Cls == "OK" && f.OKX != "":
+		x = f.OKX
 	case a.Cls == "OK":
 		x = r.name("mark") + `("X")`
 	case a.Cls == "RT":
 		x = "(1 % 0)"
+	case a.Cls == "RP": // baseline only: same syntax as the runtime-error operand, harmless
+		x = "(1 % 1)"
 	default:
 		x = r.name("thrower_"+a.Cls) + "()"
 	}
 	s := strings.ReplaceAll(f.Stmt, "%X", x)
-	for _, fn := range []string{"markn(", "markf(", "mark(", "take(", "new XO("} {
+	for _, fn := range []string{"markn(", "markf(", "marka(", "marko(", "mark(", "take(", "new XO(", "new XC("} {
 		if r.sfx != "" {
 			s = strings.ReplaceAll(s, fn, strings.Replace(fn, "(", r.sfx+"(", 1))
 		}
+	}
+	if r.sfx != "" {
+		s = strings.ReplaceAll(s, "XO::", "XO"+r.sfx+"::")
 	}
 	return s
 }
@@ -115,8 +188,11 @@ func exprHeader(r *render) {
 	r.line(0, fmt.Sprintf(`function %s($t) { echo $t, ";"; return false; }`, r.name("markf")))
 	r.line(0, fmt.Sprintf(`function %s($a, $b, $c) { echo "take;"; return 0; }`, r.name("take")))
 	r.line(0, fmt.Sprintf(`function %s() { $x = new Exception("fEX"); %s::$last = $x; throw $x; }`, r.name("thrower_EX"), K))
-	r.line(0, fmt.Sprintf(`class %s { function E0() { return %s(); } function E1() { return %s(); } function EX() { return %s(); } function RT() { return 1 %% 0; } function OK() { return %s("X"); } }`,
-		r.name("XO"), r.name("thrower_E0"), r.name("thrower_E1"), r.name("thrower_EX"), r.name("mark")))
+	r.line(0, fmt.Sprintf(`class %s { public $p = 1; function E0() { return %s(); } function E1() { return %s(); } function EX() { return %s(); } function RT() { return 1 %% 0; } function OK() { return %s("X"); } function M0() { return %s("x0"); } function M1() { return %s("x1"); } function arg3($a, $b, $c) { echo "take;"; return 0; } static function sarg3($a, $b, $c) { echo "take;"; return 0; } }`,
+		r.name("XO"), r.name("thrower_E0"), r.name("thrower_E1"), r.name("thrower_EX"), r.name("mark"), r.name("mark"), r.name("mark")))
+	r.line(0, fmt.Sprintf(`class %s { function __construct($a, $b, $c) { echo "take;"; } }`, r.name("XC")))
+	r.line(0, fmt.Sprintf(`function %s($t) { echo $t, ";"; return [1]; }`, r.name("marka")))
+	r.line(0, fmt.Sprintf(`function %s($t) { echo $t, ";"; return new %s(); }`, r.name("marko"), r.name("XO")))
 }
 
 // refExpr: reference semantics of action "x".
@@ -142,6 +218,25 @@ func (r *refRun) refExpr(a nAct) comp {
 	o := r.newObj(cls, "f"+a.Cls)
 	r.last = o
 	return comp{kind: cThrow, o: o}
+}
+
+// usesFormKind reports whether some "x" action uses the form with the operand kind.
+func usesFormKind(a Act, form, kind string) bool {
+	if a.K == "x" {
+		return a.Form == form && a.Cls == kind
+	}
+	if a.K != "try" {
+		return false
+	}
+	if usesFormKind(a.Try.Body, form, kind) {
+		return true
+	}
+	for _, c := range a.Try.Catches {
+		if usesFormKind(c.Body, form, kind) {
+			return true
+		}
+	}
+	return a.Try.Fin != nil && usesFormKind(*a.Try.Fin, form, kind)
 }
 
 // usesForm reports whether some "x" action uses the form.
@@ -194,6 +289,15 @@ func enumExpr(ctx string, emit func(Try)) {
 		}
 		xx := x
 		emit(Try{Body: m, Fin: &xx})
+	}
+	// D: nested - the expression is the body of an inner try that cannot handle it (finally only, or a
+	// non-matching catch + finally); the outer try catches it (with and without its own finally)
+	for _, x := range xs {
+		for _, fin := range finals {
+			m1, m2 := m, m
+			emit(Try{Body: Act{K: "try", Try: &Try{Body: x, Fin: &m1}}, Catches: []Catch{{Type: "Throwable", Body: m}}, Fin: fin})
+			emit(Try{Body: Act{K: "try", Try: &Try{Body: x, Catches: []Catch{{Type: "E2", Body: m}}, Fin: &m2}}, Catches: []Catch{{Type: "Throwable", Body: m}}, Fin: fin})
+		}
 	}
 }
 
